@@ -159,7 +159,15 @@ fn body(seed: u64, turns: usize, policy: u64, order: u64) {
             say("STAGE capture_path");
             drop(g2);
         } else {
-            drop(g);
+            // the last owner is released while its thread unwinds from a panic that the caller contains
+            // (join / catch_unwind): the process must survive that, too
+            std::panic::set_hook(Box::new(|_| {}));
+            let h = std::thread::spawn(move || {
+                let _owned = g;
+                panic!("contained panic while owning a long game");
+            });
+            let r = h.join();
+            say(&format!("STAGE released_while_unwinding contained={}", r.is_err()));
         }
         say("STAGE drop_original");
     } else {
